@@ -79,6 +79,10 @@ def main(ctx, args):
                 c["scheduler"] = sched
                 if sched:
                     c["id"] += ":sched"
+                if prof in ("statelam", "modulo"):
+                    # no prediction: the reference semantics runs a closure body against a scratch state (a stateful lambda always
+                    # reads zeros there) and has no `%`; VM against WASM only
+                    c["sx"] = None
             gstats.update(st)
             allcases += cs
     # integer `match`: literal arm tables (dense, sparse, shifted), scrutinees sweeping from below the smallest arm through the
